@@ -1,7 +1,74 @@
-(* C07 — placeholder until proofs/EventLog_Lemmas.v lands *)
-From Coq Require Import List.
-From SosModel Require Import model.EventLog.
-Theorem C07_reopen_idem (hash tm dat : Type) (l : @elog hash tm dat) :
-  log_reopen hash tm dat (log_reopen hash tm dat l) = log_reopen hash tm dat l.
-Proof. reflexivity. Qed.
-Print Assumptions C07_reopen_idem.
+(* C07 — patches apply only on the agreed base; a refused merge changes nothing. *)
+From Coq Require Import List NArith.
+From SosModel Require Import model.Merkle model.EventLog proofs.Merkle_Lemmas proofs.EventLog_Lemmas.
+Import ListNotations.
+
+Section C07.
+Variable hash : Type.
+Variable hash_eqb : hash -> hash -> bool.
+Hypothesis hash_eqb_spec : forall a b, hash_eqb a b = true <-> a = b.
+Variable H2 : hash -> hash -> hash.
+Variables tm dat : Type.
+Notation elog := (@elog hash tm dat).
+Notation Inv := (Inv hash tm dat).
+Notation log_apply := (log_apply hash tm dat).
+Notation patch_checked := (log_patch_checked hash hash_eqb H2 tm dat).
+Notation rewind_and_patch := (rewind_and_patch hash hash_eqb H2 tm dat).
+
+(* a checked patch is appended iff the comparison with the sender's proof answers Equal;
+   in every other case the result carries no new state: the log is left as it was *)
+Theorem C07_patch_iff_equal l p rs l' :
+  patch_checked l p rs = PcSuccess l' <->
+  (tree_compare hash hash_eqb H2 (l_tree l) p = Some CmpEqual /\ l' = log_apply l rs).
+Proof. exact (patch_checked_success_iff hash hash_eqb H2 tm dat l p rs l'). Qed.
+
+(* ... hence only if the head the sender computed the patch against is this log's head *)
+Theorem C07_patch_only_on_same_head l other p rs l' :
+  l_tree l <> [] -> other <> [] -> head hash H2 other = Some p ->
+  patch_checked l p rs = PcSuccess l' ->
+  l_tree l = other \/ Collision hash H2 \/ Confusion hash H2 (l_tree l) other.
+Proof. exact (patch_checked_only_on_same_head hash hash_eqb hash_eqb_spec H2 tm dat l other p rs l'). Qed.
+
+(* ... and always when it is *)
+Theorem C07_patch_on_same_head_applies l p rs :
+  l_tree l <> [] -> head hash H2 (l_tree l) = Some p ->
+  patch_checked l p rs = PcSuccess (log_apply l rs).
+Proof. exact (patch_checked_same_head_applies hash hash_eqb hash_eqb_spec H2 tm dat l p rs). Qed.
+
+(* rewind + re-apply of the returned records is the identity: the rollback of a refused
+   rewind-and-patch request restores records, order and tree exactly *)
+Theorem C07_rewind_rollback l c l' removed : Inv l ->
+  log_rewind hash hash_eqb tm dat l c = RwOk l' removed -> log_apply l' removed = l.
+Proof. exact (rewind_rollback hash hash_eqb hash_eqb_spec H2 tm dat l c l' removed). Qed.
+
+Theorem C07_rewind_and_patch_refused_unchanged l c p rs l' :
+  Inv l -> rewind_and_patch l c p rs = RpDone l' false -> l' = l.
+Proof. exact (rewind_and_patch_refused_unchanged hash hash_eqb hash_eqb_spec H2 tm dat l c p rs l'). Qed.
+
+Theorem C07_rewind_and_patch_accepted l c p rs l' :
+  Inv l -> rewind_and_patch l c p rs = RpDone l' true ->
+  exists kept removed, l_recs l = kept ++ removed /\ l_recs l' = kept ++ rs /\ Inv l'.
+Proof. exact (rewind_and_patch_accepted hash hash_eqb hash_eqb_spec H2 tm dat l c p rs l'). Qed.
+
+(* replace-all installs exactly the given records or returns an error without a new state *)
+Theorem C07_replace_all_ok l ckpt rs l' :
+  log_replace_all hash hash_eqb H2 tm dat l ckpt rs = RaOk l' -> l_recs l' = rs /\ Inv l' /\ rs <> [].
+Proof. exact (replace_all_ok hash hash_eqb H2 tm dat l ckpt rs l'). Qed.
+End C07.
+
+(* non-vacuity: a refused rewind-and-patch on a concrete log (toy hash on nat) *)
+Example C07_nonvacuous_refused :
+  exists l',
+  rewind_and_patch nat Nat.eqb (fun a b => a * 1000 + b) nat nat
+    (mkElog [mkErec 1 10 0; mkErec 2 20 0; mkErec 3 30 0] [10; 20; 30]) 10
+    (mkProof 7 [] 1%N [0%N]) [mkErec 9 40 0] = RpDone l' false /\
+  l' = mkElog [mkErec 1 10 0; mkErec 2 20 0; mkErec 3 30 0] [10; 20; 30].
+Proof. eexists. split; reflexivity. Qed.
+
+Print Assumptions C07_patch_iff_equal.
+Print Assumptions C07_patch_only_on_same_head.
+Print Assumptions C07_patch_on_same_head_applies.
+Print Assumptions C07_rewind_rollback.
+Print Assumptions C07_rewind_and_patch_refused_unchanged.
+Print Assumptions C07_rewind_and_patch_accepted.
+Print Assumptions C07_replace_all_ok.
